@@ -64,7 +64,7 @@ CHECKS.append({
              "of wrap-arounds), with messages sent in any order relative to the order their counts were drawn, a connected message repeats the count "
              "of the message sent immediately before it IF AND ONLY IF the two counts were drawn a multiple of 65535 draws apart; hence "
              "C17_guarded / C17_small_gaps: freshness holds for every history in which fewer than 65534 counts are drawn between consecutive "
-             "sends; C17_range: every count on the wire is in 1..65535. The full statement is refuted by a vm_compute witness (C17_full_refuted: "
+             "sends; C17_range: every count on the wire is in 1..65535; C17_window_distinct: the counts of ANY set of messages whose draw indices lie within one period are pairwise distinct (NoDup), C17_period_exact / C17_first_period: the period is exactly 65535 and the first 65535 counts are 1..65535 in order. The full statement is refuted by a vm_compute witness (C17_full_refuted: "
              "one message, 65534 wasted draws, next message) which is replayed on the real LogixDriver (read of 65534 tags) and listed as a known "
              "finding. Induction over histories + modular arithmetic (lia). Tie: regenerated translation + cross-check against the real generator "
              "over two periods, and draw-index traces of real CIP/Logix/Micro800/SLC driver histories around the wrap-around."),
